@@ -185,10 +185,7 @@ func genCfg(rng *rand.Rand, n int) runCfg {
 			c.CancelRunning = rng.Intn(2) == 0
 		}
 	case "mailbox":
-		// Close never overlaps a Submit that can fall into a finishing drain's window (finding F3):
-		// either Close follows the producers ("after"), or the handlers are held until the producers
-		// returned ("frozen": Close races the Submit calls, no drain can be finishing meanwhile).
-		c.Mode = []string{"after", "frozen"}[rng.Intn(2)]
+		c.Mode = []string{"after", "concurrent", "frozen"}[rng.Intn(3)]
 	}
 	return c
 }
@@ -415,10 +412,16 @@ func oneRun(c runCfg, rng *rand.Rand) (*runLog, string) {
 	return lg, infra
 }
 
-// knownWindow matches a finished history to one of the recorded defects of the code as it is.
-// It only looks at histories of configurations whose Close can fall into a known window, and only
-// for the symptom of that window (items admitted, never handled, never cancelled).
+// knownWindow matches a finished history to the one defect of the code as it is that is still open
+// (known-findings.json, status "known"): F5, BoundedBatchPool with CancelRunningOnClose and without
+// CancelAcceptedOnClose drops accepted items when its executor is saturated at Close.  Only histories
+// of exactly that configuration are looked at, and only for that symptom (items admitted, never
+// handled, never cancelled); every other history goes to TLC.  F3, F4 and F6 are fixed in /repo and
+// get no special treatment any more.
 func knownWindow(c runCfg, lg *runLog) (sig string, lost []int) {
+	if !(c.Kind == "batch" && c.CancelRunning && !c.CancelAccepted) {
+		return "", nil
+	}
 	lg.mu.Lock()
 	defer lg.mu.Unlock()
 	for i, it := range lg.items {
@@ -429,21 +432,7 @@ func knownWindow(c runCfg, lg *runLog) (sig string, lost []int) {
 	if len(lost) == 0 {
 		return "", nil
 	}
-	switch {
-	case c.Kind == "pool" && c.Mode != "after":
-		// F4: every lost item's Submit returned after Close had been called
-		for _, i := range lost {
-			if lg.items[i].retSeq < lg.close {
-				return "", lost
-			}
-		}
-		return sigF4, lost
-	case c.Kind == "batch" && c.CancelAccepted:
-		return sigF6, lost
-	case c.Kind == "batch" && c.CancelRunning:
-		return sigF5, lost
-	}
-	return "", lost
+	return sigF5, lost
 }
 
 func (r *runLog) snapshot() []map[string]any {
@@ -454,7 +443,7 @@ func (r *runLog) snapshot() []map[string]any {
 
 func runRandom(env kit.Env, rep *kit.Report, rec *kit.Recorder, known *knownHits) {
 	rng := env.Rand()
-	runs := env.Pick(240, 2400)
+	runs := env.Pick(240, 1600)
 	matched := map[string]int{}
 	kinds := map[string]int{}
 	for n := 0; n < runs; n++ {
